@@ -3,9 +3,14 @@
 mod hcommon;
 mod arith;
 mod core_mode;
+mod initspec_mode;
 mod util;
 pub use hcommon::guarded;
 
 fn main() {
-    hcommon::run_main(&[("core", core_mode::handle), ("arith", arith::handle)]);
+    hcommon::run_main(&[
+        ("core", core_mode::handle),
+        ("arith", arith::handle),
+        ("initspec", initspec_mode::handle),
+    ]);
 }
